@@ -1,8 +1,78 @@
 import Driver.Util
-open Lean
+import Paroxy.Model.Dedup
+import Paroxy.Spec.Dedup
+open Lean Paroxy
 
 namespace Driver.C10
 
-def handlers : List (String × Handler) := []
+/-- A bag is sent as `[[span_id, count], ...]` (span ids are integers chosen by the harness). -/
+def bagOfJson (j : Json) : Except String (Bag Int) := do
+  let a ← j.getArr?
+  let l ← a.toList.mapM fun e => do
+    let p ← intList e
+    match p with
+    | [s, c] => pure (s, c)
+    | _ => throw "bag entry must be [span, count]"
+  pure l
+
+def taxaOfJson (j : Json) : Except String (List (Dedup.Name × Bag Int)) := do
+  let a ← j.getArr?
+  a.toList.mapM fun e => do
+    let p ← e.getArr?
+    match p.toList with
+    | [n, b] => do
+      let n ← n.getStr?
+      let b ← bagOfJson b
+      pure (n.toList, b)
+    | _ => throw "taxon must be [name, bag]"
+
+def bagToJson (b : Bag Int) : Json :=
+  Json.arr (b.map fun e => Json.arr #[Json.num (JsonNumber.fromInt e.1), Json.num (JsonNumber.fromInt e.2)]).toArray
+
+def taxaToJson (t : List (Dedup.Name × Bag Int)) : Json :=
+  Json.arr (t.map fun e => Json.arr #[Json.str (String.ofList e.1), bagToJson e.2]).toArray
+
+/-- `c10.model`: `deduplicated_taxa(taxa)` in the model. -/
+def model : Handler := fun j => do
+  let t ← j.getObjVal? "taxa"
+  let taxa ← taxaOfJson t
+  match Dedup.deduplicatedTaxa taxa with
+  | .ok r => pure (Json.mkObj [("ok", taxaToJson r)])
+  | .error .valueError => pure (Json.mkObj [("exc", "ValueError")])
+
+/-- `c10.spec`: the hypotheses of the theorems and the three clauses of the property evaluated on a
+given output (`out`, normally the implementation's). -/
+def spec : Handler := fun j => do
+  let taxa ← taxaOfJson (← j.getObjVal? "taxa")
+  let out ← taxaOfJson (← j.getObjVal? "out")
+  pure (Json.mkObj [
+    ("hyp_sorted", Json.bool (Spec.Dedup.strictSortedB (taxa.map (·.1)))),
+    ("hyp_clean", Json.bool (Spec.Dedup.cleanNamesB (taxa.map (·.1)))),
+    ("hyp_bags", Json.bool (Spec.Dedup.goodBagsB taxa)),
+    ("out_wf", Json.bool (Spec.Dedup.goodOutB out)),
+    ("no_invention", Json.bool (Spec.Dedup.noInventionS taxa out)),
+    ("unshared_kept", Json.bool (Spec.Dedup.unsharedKeptS taxa out)),
+    ("covered_lost", Json.bool (Spec.Dedup.coveredLostS taxa out))])
+
+/-- `c10.commonpath`: the transcription of `posixpath.commonpath((a, b))`. -/
+def commonpath : Handler := fun j => do
+  let a ← getStr j "a"
+  let b ← getStr j "b"
+  match Dedup.commonpath a.toList b.toList with
+  | .ok r => pure (Json.mkObj [("ok", Json.str (String.ofList r))])
+  | .error .valueError => pure (Json.mkObj [("exc", "ValueError")])
+
+/-- `c10.both`: model output and, when `out` is given (the implementation returned normally), the
+hypotheses and clauses evaluated on it — one round trip per case. -/
+def both : Handler := fun j => do
+  let m ← model j
+  match j.getObjVal? "out" with
+  | .ok _ => do
+    let s ← spec j
+    pure (Json.mkObj [("model", m), ("spec", s)])
+  | .error _ => pure (Json.mkObj [("model", m)])
+
+def handlers : List (String × Handler) :=
+  [("c10.model", model), ("c10.spec", spec), ("c10.both", both), ("c10.commonpath", commonpath)]
 
 end Driver.C10
